@@ -248,6 +248,10 @@ func selectOp(cases []*caseDesc, hasDefault bool, kind string) int {
 			alts[i] = Alt{Class: ClassSched, Cost: c, Label: fmt.Sprintf("case%d", ready[i])}
 		}
 		pick = s.choose(ChoiceSelect, alts)
+		if s.aborted {
+			s.end()
+			s.park(me)
+		}
 	}
 	idx := ready[pick]
 	c := cases[idx]
